@@ -22,7 +22,7 @@ func runMoreSuites(suite string, r *rand.Rand, res *Result, thorough bool) bool 
 		runCases(s, levelsGen(r, scale(100, 2500), true), res)
 	case "db":
 		s := Suite{Name: "db", DriverSuite: "db", Exec: dbExec}
-		res.Rule = "random interleavings of up to 6 open transactions (Begin/Get/Set/Delete/Commit/Discard, misuse of finished handles, oversize values) over 3-8 adversarial keys on a real DB with tiny thresholds (memtable 60-2000 B, blocks 1-200 B, L0TargetNum 1-4, LevelRatio 1-4, ImmutableBuffer 0-3); the flusher is gated by the hooks and released by generator ops, so rotation, flush-add, compaction and flush-remove fall between the API calls the generator chooses; Close/Open cycles with a re-drawn configuration; every API result, every table content and every watermark value is replayed through the Lean model; non-trivial = concurrent transactions, discard, misuse or reopen"
+		res.Rule = "random interleavings of up to 6 open transactions (Begin/Get/Set/Delete/Commit/Discard, misuse of finished handles, oversize values) over 3-8 adversarial keys on a real DB with tiny thresholds (memtable 60-2000 B, blocks 1-200 B, L0TargetNum 1-4, LevelRatio 1-4, ImmutableBuffer 0-3); the flusher is gated by the hooks and released by generator ops, so rotation, flush-add, compaction and flush-remove fall between the API calls the generator chooses; Close/Open cycles with a re-drawn configuration; DB.Update closures that succeed, fail or panic; a read-only transaction beginning while a Commit is held right after it got its timestamp (Begin must wait for it); every API result, every table content and every watermark value is replayed through the Lean model; non-trivial = concurrent transactions, discard, misuse or reopen"
 		runCases(s, dbGen(r, scale(40, 600), scale(120, 250), true), res)
 		runCases(s, dbGenManyTables(r, scale(4, 60)), res)
 	case "closerace":
